@@ -926,6 +926,48 @@ func (e *enc) sendOrdinal(pos token.Pos, name string) int {
 	return 0
 }
 
+// siteCounts counts, per callee short name, the call sites of the function (calls, defers, go
+// statements; builtins append/copy/delete), and per channel text the send / receive sites
+// ("send:<chan>", "recv:<chan>").
+func (e *enc) siteCounts() map[string]int {
+	out := map[string]int{}
+	for _, b := range e.fn.Blocks {
+		for _, in := range b.Instrs {
+			var cc *ssa.CallCommon
+			switch x := in.(type) {
+			case *ssa.Call:
+				cc = &x.Call
+			case *ssa.Defer:
+				cc = &x.Call
+			case *ssa.Go:
+				cc = &x.Call
+			case *ssa.Send:
+				out["send:"+e.valText(x.Chan)]++
+			case *ssa.UnOp:
+				if x.Op == token.ARROW {
+					out["recv:"+e.valText(x.X)]++
+				}
+			case *ssa.Select:
+				for _, stt := range x.States {
+					if stt.Dir == types.SendOnly {
+						out["send:"+e.valText(stt.Chan)]++
+					} else {
+						out["recv:"+e.valText(stt.Chan)]++
+					}
+				}
+			}
+			if cc == nil {
+				continue
+			}
+			if bi, isB := stripVal(cc.Value).(*ssa.Builtin); isB && bi.Name() != "append" && bi.Name() != "copy" && bi.Name() != "delete" {
+				continue
+			}
+			out[e.calleeShort(cc)]++
+		}
+	}
+	return out
+}
+
 // sendClauses applies "send <chan>#k assert|bind" clauses to a value offered on a channel.
 func (e *enc) sendClauses(st *State, ch ssa.Value, val ssa.Value, pos token.Pos) {
 	if e.c == nil {
